@@ -82,23 +82,68 @@ pub fn monitor(out: &RunOut) -> MonOut {
         let mut pending_ping: Option<usize> = None;
         // a successful ping happened at this index: its values must be committed before the next wait
         let mut ping_commit_due: Option<usize> = None;
+        // the embedder changed an app's data while a check was under way: the requests of that
+        // check still carry what was captured when it began
+        let mut skip_r1 = false;
+        // records as they were right before each change by the embedder since the last commit
+        let mut since_commit: Vec<Vec<AppState>> = vec![];
+        let mut presets_touched = false;
+        // the result of a complete check has been announced; its final commit follows
+        let mut after_result = false;
+        // the most recent delivered response the library may apply to the app set: Some(Some(doc)) a
+        // well-formed one, Some(None) one whose content is not known to the oracle
+        let mut pending_doc: Option<Option<Value>> = None;
+        // what a restart must restore after the successful ping (as of the moment it was applied)
+        let mut ping_expected: Option<Vec<AppState>> = None;
         for i in l.start..l.end {
             let r = &h[i];
             let site = format!("L{}@{}", l.life, i);
             match &r.kind {
+                Kind::NeighbourMutate { app, hint } => {
+                    m.count("R2.embedder_changes_an_app");
+                    if let Some(md) = &mut model {
+                        // the library may have read the app set for persisting just before this change
+                        // and commit just after it: the record as it was counts as a legitimate content
+                        since_commit.push(md.clone());
+                        if let Some(a) = md.iter_mut().find(|a| a.id == *app) {
+                            a.hint = Some(hint.clone());
+                        }
+                        skip_r1 = true;
+                    } else {
+                        // before the machine's first policy call: what it shows first is not the bare presets
+                        presets_touched = true;
+                    }
+                }
+                Kind::Event(EventRec::State(StateRec::CheckingForUpdates(_))) => {
+                    pending_doc = None;
+                }
+                Kind::AppSetWrite => {
+                    // the library writes the apps: it applies the response it has just accepted
+                    if let Some(md) = &mut model {
+                        match pending_doc.take() {
+                            Some(Some(doc)) if unique_ids(&doc) => {
+                                m.count("R4.responses_applied");
+                                apply_doc(md, &doc);
+                                if ping_commit_due.is_some() {
+                                    ping_expected = Some(vec![]);
+                                }
+                            }
+                            _ => resync = true,
+                        }
+                    }
+                }
                 Kind::Policy(PolicyRec::ComputeNext { apps, .. }) | Kind::Policy(PolicyRec::CheckAllowed { apps, .. }) => {
+                    skip_r1 = false;
                     if let (Some(at), Some(md), false) = (ping_commit_due.take(), &model, resync) {
-                        // R3 for pings: the record committed after the ping restores the current values
-                        m.count("R3.successful_pings_committed");
+                        // R3 for pings: a commit must have followed the ping
                         let last_probe: Option<Vec<AppState>> = (at..i).rev().find_map(|j| match &h[j].kind {
                             Kind::Probe { apps, .. } => Some(apps.iter().map(from_rec).collect()),
                             _ => None,
                         });
-                        let want = restored(&l.presets, md);
-                        match last_probe {
-                            Some(seen) if seen == want => {}
-                            Some(seen) => m.viol(p, "R3", &site, format!("after a successful ping a restart would restore {:?}, expected {:?}", seen, want)),
-                            None => m.viol(p, "R3", &site, "after a successful ping nothing was committed to storage".to_string()),
+                        // (a commit after the ping is judged when it is probed, below)
+                        let _ = md;
+                        if last_probe.is_none() && ping_expected.take().is_some() {
+                            m.viol(p, "R3", &site, "after a successful ping nothing was committed to storage".to_string());
                         }
                     }
                     let seen: Vec<AppState> = apps.iter().map(from_rec).collect();
@@ -106,7 +151,7 @@ pub fn monitor(out: &RunOut) -> MonOut {
                         (None, _) => {
                             // fresh machine on empty storage shows the embedder's presets
                             if let Kind::DiskCommitted { map } = &h[l.start + 1].kind {
-                                if map.is_empty() {
+                                if map.is_empty() && !presets_touched {
                                     m.count("R3.fresh_presets");
                                     let want: Vec<AppState> = l.presets.iter().map(from_rec).collect();
                                     if want != seen {
@@ -133,7 +178,7 @@ pub fn monitor(out: &RunOut) -> MonOut {
                     if *kind == ReqKind::Ping {
                         pending_ping = xs.iter().position(|x| x.id == *id);
                     }
-                    if let (Some(md), false, Some(b)) = (&model, resync, body_json) {
+                    if let (Some(md), false, Some(b), false) = (&model, resync, body_json, skip_r1) {
                         // R1: the request carries exactly the record's values
                         let apps = b.get("request").and_then(|r| r.get("app")).and_then(|a| a.as_array()).cloned().unwrap_or_default();
                         // event reports inside a check carry the values captured when the check began;
@@ -157,6 +202,16 @@ pub fn monitor(out: &RunOut) -> MonOut {
                     }
                 }
                 Kind::HttpDeliver { id, .. } => {
+                    if let Some(x) = xs.iter().find(|x| x.id == *id && (x.kind == ReqKind::UpdateCheck || x.kind == ReqKind::Ping)) {
+                        pending_doc = match &x.result {
+                            Some(Ok(r)) if seg::accepted_by_cup(l.cup, r) && seg::is_2xx(r.status) => match (r.grammatical, &r.doc) {
+                                (Some(true), Some(doc)) => Some(Some(doc.clone())),
+                                (Some(false), _) => None,
+                                _ => Some(None),
+                            },
+                            _ => None,
+                        };
+                    }
                     if let Some(pi) = pending_ping {
                         if xs[pi].id == *id {
                             pending_ping = None;
@@ -167,7 +222,8 @@ pub fn monitor(out: &RunOut) -> MonOut {
                                         (Some(true), Some(doc)) if unique_ids(doc) => {
                                             m.count("R4.successful_ping");
                                             m.sig(format!("ping|{}", canon(doc).len() % 97));
-                                            apply_doc(md, doc);
+                                            // (applied when the library writes the app set)
+                                            let _ = &md;
                                             ping_commit_due = Some(i);
                                         }
                                         (Some(false), _) => {}
@@ -186,17 +242,20 @@ pub fn monitor(out: &RunOut) -> MonOut {
                         Some(c) => c,
                         None => continue,
                     };
+                    after_result = c.complete;
                     if let Some(md) = &mut model {
                         let cxs = seg::exchanges(h, c.start, c.end);
                         let truth = uc_truth(c, &cxs);
                         match (res, truth.usable, &truth.doc) {
                             (Ok(_), Some(true), Some(doc)) if unique_ids(doc) => {
                                 m.count("R4.successful_check");
-                                let before = md.clone();
-                                apply_doc(md, doc);
-                                let changed = md.iter().zip(before.iter()).filter(|(a, b)| a != b).count();
+                                // (the document was applied when the library wrote the app set; if it
+                                // never did, the next policy call shows the difference)
+                                if pending_doc.take().is_some() {
+                                    apply_doc(md, doc);
+                                }
                                 let named = doc_apps(doc).len();
-                                m.sig(format!("check|apps{}|named{}|changed{}|{:?}", md.len(), named, changed, doc_elapsed_days(doc).is_some()));
+                                m.sig(format!("check|apps{}|named{}|{:?}", md.len(), named, doc_elapsed_days(doc).is_some()));
                             }
                             (Err(_), Some(false), _) => {
                                 m.count("R4.failed_check");
@@ -209,7 +268,12 @@ pub fn monitor(out: &RunOut) -> MonOut {
                     }
                 }
                 Kind::Probe { apps, sched, .. } => {
+                    let snaps = std::mem::take(&mut since_commit);
                     let before = prev_probe_last.replace(sched.last_update_time.clone());
+                    if resync {
+                        // what this commit holds is not known to the model: neither is "the previous commit" from here on
+                        committed_model = None;
+                    }
                     if !first_probe_seen {
                         first_probe_seen = true;
                         continue;
@@ -218,10 +282,28 @@ pub fn monitor(out: &RunOut) -> MonOut {
                         let seen: Vec<AppState> = apps.iter().map(from_rec).collect();
                         let cur = restored(&l.presets, md);
                         m.count("R3.commits_probed");
+                        if after_result {
+                            // the check's final commit restores the record as it is now
+                            after_result = false;
+                            m.count("R3.finished_checks");
+                            if seen != cur && !snaps.iter().any(|c| restored(&l.presets, c) == seen) {
+                                m.viol(p, "R3", &site, format!("after the finished check a restart would restore {:?}, expected {:?}", seen, cur));
+                            }
+                        }
+                        if ping_commit_due.is_some() && ping_expected.is_some() {
+                            // the commit that follows a successful ping holds the record as it is now
+                            ping_expected = None;
+                            ping_commit_due = None;
+                            m.count("R3.successful_pings_committed");
+                            if seen != cur && !snaps.iter().any(|c| restored(&l.presets, c) == seen) {
+                                m.viol(p, "R3", &site, format!("after a successful ping a restart would restore {:?}, expected {:?}", seen, cur));
+                            }
+                        }
                         if seen == cur {
                             committed_model = Some(md.clone());
                         } else {
-                            let prev_ok = committed_model.as_ref().map(|c| restored(&l.presets, c) == seen).unwrap_or(true);
+                            let prev_ok = committed_model.as_ref().map(|c| restored(&l.presets, c) == seen).unwrap_or(true)
+                                || snaps.iter().any(|c| restored(&l.presets, c) == seen);
                             if !prev_ok {
                                 m.viol(p, "R3", &site, format!("committed state restores apps {:?}: neither the previous commit nor the current record {:?}", seen, cur));
                             } else if let Some(b) = &before {
@@ -236,34 +318,8 @@ pub fn monitor(out: &RunOut) -> MonOut {
                     }
                 }
                 Kind::Event(EventRec::State(StateRec::Idle)) | Kind::Event(EventRec::State(StateRec::WaitingForReboot)) | Kind::StreamEnd => {
-                    if checks.iter().any(|c| c.end == i && c.complete) {
-                        if let (Some(md), false) = (&model, resync) {
-                            m.count("R3.finished_checks");
-                            // the probe taken at the check's final commit must restore the current record
-                            let mut last_probe: Option<Vec<AppState>> = None;
-                            for j in (l.start..i).rev() {
-                                match &h[j].kind {
-                                    Kind::Probe { apps, .. } => {
-                                        last_probe = Some(apps.iter().map(from_rec).collect());
-                                        break;
-                                    }
-                                    Kind::Event(EventRec::Result(_)) => break,
-                                    _ => {}
-                                }
-                            }
-                            let want = restored(&l.presets, md);
-                            match last_probe {
-                                Some(seen) => {
-                                    if seen != want {
-                                        m.viol(p, "R3", &site, format!("after the finished check a restart would restore {:?}, expected {:?}", seen, want));
-                                    }
-                                }
-                                None => {
-                                    // no commit after the result: C08.R2 reports it
-                                }
-                            }
-                        }
-                    }
+                    // (the commit that follows a check's result is judged when it is probed)
+                    after_result = false;
                 }
                 _ => {}
             }
